@@ -300,7 +300,10 @@ def execute(binary, wd, name, scenario, targets, tamper_every=1):
         cmd = [binary, "tree", "--scenario", sp, "--out", tp, "--tab", tb, "--targets", ",".join(targets),
                "--tamper-every", str(tamper_every)]
     import hook
-    rc, o = run(cmd, timeout=3600, env={"ZEROKIT_VERIF_TRACE": hook.hook_env(wd, name)})     # hook H2 records next to the recorder
+    env = {"ZEROKIT_VERIF_TRACE": hook.hook_env(wd, name)}                   # hook H2 records next to the recorder
+    if tamper_every:                                                          # (C07: the proof queries are events too)
+        env["ZEROKIT_VERIF_TRACE_PROOFS"] = "1"
+    rc, o = run(cmd, timeout=3600, env=env)
     if rc != 0:
         raise ToolError(f"harness failed ({rc}):\n{o[-3000:]}")
     return tp, tb
@@ -491,8 +494,9 @@ def run_property(prop, tier, out, binary=None):
                                          "leaves": r["obs"].get("leaves"), "root": r["obs"].get("root")}}, limit=4)
                 break
         # the same execution as logged by the backends themselves (hook H2), validated with the model state carried
-        # through the whole trace (C07 is about proofs, which the hook does not log)
-        if prop != "C07":
+        # through the whole trace (C07: every membership-proof query the recorder made is a hook line, judged against
+        # the IDEAL tree of the model state)
+        if True:
             hj, hl, _ = hook.judge_dir(prop, wd, name, os.path.join(wd, f"hook-{name}"), binary, kf_names, kf_desc, out,
                                        "harness scenario " + name)
             hook_judged += hj
@@ -506,7 +510,7 @@ def run_property(prop, tier, out, binary=None):
             if neg is False:
                 raise ToolError("negative control: the judge accepted a corrupted trace (binding broken)")
             out.add(negative_control_rejected=bool(neg))
-    if prop != "C07":
+    if True:
         hook.run_repo_tests(prop, tier, wd, binary, kf_names, kf_desc, out)
         if hook_judged == 0:
             raise ToolError("vacuity: no hook line was judged (hook H2 not compiled into the harness?)")
